@@ -95,6 +95,19 @@ def step (nd : Node) (ws : List String) : Node × String :=
     match tk.toNat?, v.toNat? with
     | some tk, some v => let r := nd.genTagValueID cfg tk v; (r.1, showOut r.2)
     | _, _ => bad
+  | ["tvrange", tk, lo, n] =>
+    match tk.toNat?, lo.toNat?, n.toNat? with
+    | some tk, some lo, some n =>
+      if n = 0 then bad else
+      match nd.tagValue.lookup tk lo with
+      | none =>
+        if (List.range n).all (fun k => (nd.tagValue.lookup tk (lo + k)).isNone) then
+          let r := nd.genTagValueRange cfg tk lo n; (r.1, s!"range base={r.2} n={n}")
+        else (nd, "range mixed")
+      | some b =>
+        if (List.range n).all (fun k => nd.tagValue.lookup tk (lo + k) == some (b + k)) then (nd, s!"range base={b} n={n}")
+        else (nd, "range mixed")
+    | _, _, _ => bad
   | ["findtv", tk, v] =>
     match tk.toNat?, v.toNat? with
     | some tk, some v => (nd, showOpt (nd.tagValue.lookup tk v))
